@@ -155,15 +155,23 @@ fn must_quote(s: &[u8]) -> bool {
     let false_ = ["False", "FALSE", "false"];
     let inf = [".inf", ".Inf", ".INF"];
     let nan = [".nan", ".NaN", ".NAN"];
-    let kws = [&null, &on, &off, &yes, &no, &true_, &false_, &inf, &nan];
+    let inf = inf.map(str::as_bytes);
+    let kws = [&null, &on, &off, &yes, &no, &true_, &false_, &nan];
     let kws = kws.map(|a| a.map(str::as_bytes));
 
     // https://yaml.org/spec/1.2.2/#912-document-markers
     let is_doc_marker = |s: &[u8]| matches!(s, b"---" | b"...");
 
-    // number overapproximation
-    let is_pos_num = |s: &[u8]| s.first().is_some_and(u8::is_ascii_digit);
-    let is_num = |s: &[u8]| is_pos_num(s.strip_prefix(b"-").unwrap_or(s));
+    // number overapproximation; the reader accepts a sign, an empty integer part (`.5`) and
+    // signed infinities (`-.inf`)
+    let digit = |c: Option<&u8>| c.is_some_and(u8::is_ascii_digit);
+    let is_pos_num = |s: &[u8]| {
+        digit(s.first()) || (s.first() == Some(&b'.') && digit(s.get(1))) || inf.contains(&s)
+    };
+    let is_num = |s: &[u8]| match s {
+        [b'-' | b'+', rest @ ..] => is_pos_num(rest),
+        _ => is_pos_num(s),
+    };
 
     s == b"~"
         || is_doc_marker(s)
